@@ -42,7 +42,11 @@ def run(ctx):
     def gen(rng, i):
         # every 5th case: a constant shared by several operators (one tensor with 2..3 consumers, tied embedding table, one buffer
         # behind several tensors) x per-consumer rules: each consumer must run in ITS mode or the recipe must be refused
-        return fp.gen_tied_case(rng, i) if i % 5 == 3 else fp.gen_case(rng, i)
+        case = fp.gen_tied_case(rng, i) if i % 5 == 3 else fp.gen_case(rng, i)
+        if i % 4 == 1 and case.data:
+            # an INTEGER data branch (MEAN / ADD / TRANSPOSE / CONCATENATION over INT32 counts) beside the float graph
+            case = fp.with_int_branch(case, rng)
+        return case
     fp.explore(ctx, drv, 500 if ctx.tier == "quick" else 3000, per_case, gen=gen, graph_corr=False, mat_corr=True, pipe_corr=True)
     drv.close()
     return common.finish(ctx)
